@@ -19,7 +19,7 @@ def run(cmd, cwd=None, timeout=3600, extra_env=None):
     return p.returncode, p.stdout + p.stderr, time.time() - t0
 
 meta = json.load(open(f"{src}/meta.json"))
-demo_loc = meta.get("demo_location", "desert_core/tests/demo.rs")
+demo_loc = meta.get("demo_location", "desert_core/tests/demo.rs").split()[0]
 crate = demo_loc.split("/")[0]
 demo_path = os.path.join(wt, demo_loc)
 res = {"agent_meta": meta, "confirmed": {}, "checks": {}}
